@@ -561,9 +561,9 @@ func c12R2(ic *IC, r *Report) {
 
 // explicit discards accepted today, keyed function -> callee, with the reason.
 var c12Discards = map[string]string{
-	"isBinCall -> nodeType":                            "a type that cannot be inferred here makes isBinCall false; the error is reported when the call itself is compiled",
-	"itype.refType -> itype.zero":                      "zero() fails only for incomplete types, which refType is completing",
-	"Interpreter.cfg -> Interpreter.cfg":               "recursive early compilation of a constant sub-declaration: its error is reported when the declaration itself is reached",
+	"isBinCall -> nodeType":              "a type that cannot be inferred here makes isBinCall false; the error is reported when the call itself is compiled",
+	"itype.refType -> itype.zero":        "zero() fails only for incomplete types, which refType is completing",
+	"Interpreter.cfg -> Interpreter.cfg": "recursive early compilation of a constant sub-declaration: its error is reported when the declaration itself is reached",
 }
 
 // overwrites accepted today, keyed function: first-callee => second-callee.
